@@ -42,6 +42,7 @@ func (vc *VC) call(x ssa.Value, c *ssa.CallCommon, st *State, reach string) SV {
 		return vc.callFnValue(c, st, reach, resT)
 	}
 	vc.syncCall(callee, c, st, reach) // effects.go
+	vc.authCallHook(key, callee, reach, pos) // authflow.go (w-c18)
 	for _, a := range c.Args {
 		args = append(args, vc.typedSV(vc.val(a), a.Type())) // w-c04: map-typed arguments usable with has()/m[k] in the callee's contract
 	}
@@ -76,6 +77,12 @@ func shortKey(key string) string {
 
 // applyContract: assert the callee's requires, havoc what its frame allows, assume its ensures.
 func (vc *VC) applyContract(con *Contract, key string, n int, args []SV, st *State, reach string, resT types.Type, pos token.Pos) SV {
+	if len(con.Params) == 1 && con.Params[0] == "*" { // w-c18: header `func f(*)` binds no parameter names
+		con.Params = make([]string, len(args))
+		for i := range args {
+			con.Params[i] = fmt.Sprintf("p%d", i)
+		}
+	}
 	if len(con.Params) != len(args) {
 		panic(specErr(fmt.Sprintf("%s:%d: contract %s binds %d parameters, call passes %d", con.File, con.Line, key, len(con.Params), len(args))))
 	}
@@ -114,6 +121,7 @@ func (vc *VC) applyContract(con *Contract, key string, n int, args []SV, st *Sta
 	for _, m := range con.Modifies {
 		vc.havocMatching(st, m)
 	}
+	vc.havocLogGhosts(con, assigns, st) // logghost.go (w-c09)
 	res, parts := resultSV(vc, "call."+shortKey(key), resT)
 	tup := resT.(*types.Tuple)
 	for i, p := range parts {
